@@ -1,5 +1,5 @@
 #!/bin/bash
-# like seed_table.sh but on scratch copies of /repo (never touches /repo), J seeds at a time
+# every confirmed seed applied to its own scratch copy of /repo, the property check run on the copy; J seeds at a time
 cd /verif; export FPV_EXTRACT_SLOTS=${FPV_EXTRACT_SLOTS:-8}
 J=${1:-6}
 one() {
